@@ -726,7 +726,7 @@ func TestVerifC40(t *testing.T) {
 			Calls: []c40Call{{Tool: toolDescribeConfigs, Args: json.RawMessage(`{}`)}, {Tool: toolDescribeConfigs, Args: json.RawMessage(`{"topics":["orders"]}`)}, {Tool: toolFetchOffsets, Args: json.RawMessage(`{"group_id":"g1"}`)}},
 			Later: []c40Op{{K: "up", N: 1, Topics: []c40Topic{{Name: "orders", Parts: 5}}}}})
 		r := vNewRand(vSeed())
-		n := vN(40, 400)
+		n := vN(30, 400)
 		for i := 0; i < n; i++ {
 			rr := r.Fork()
 			cs := c40Case{Brokers: rr.Range(1, 3), Initial: c40GenSnapshotTopics(rr, 0, 3), Populate: c40GenPopulate(rr)}
